@@ -213,20 +213,31 @@ def check(prop: str, tier: str, seed: int, only: Optional[str] = None) -> int:
     hmap = {h.name: h for h in hs}
 
     def wit(item):
-        hn, w = item
-        return hn, w, native(hmap[hn], module, tier, w, profile=True, strong=False)
+        hn, ws = item
+        job = {"module": module, "key": f"{prop}.{hn}", "tier": tier, "batch": ws, "profile": True, "strong": False}
+        return hn, ws, _sub("engine.native", job, 600)
 
-    todo = [(hn, w) for hn, ws in by_h.items() for w in ws[:4]]
+    def spread(ws: List[Dict[str, Any]], n: int) -> List[Dict[str, Any]]:
+        if len(ws) <= n:
+            return ws
+        step = len(ws) / n
+        return [ws[int(i * step)] for i in range(n)]
+
+    todo = [(hn, spread(ws, 64)) for hn, ws in by_h.items()]
     with ThreadPoolExecutor(max_workers=NPROC) as ex:
-        for hn, w, nat in ex.map(wit, todo):
-            tot["traces"] += 1
-            if nat.get("result") is True and nat.get("pre") is True:
-                functions.update(nat.get("functions", []))
-                if len([s for s in samples if isinstance(s, dict) and s.get("harness") == hn]) < 2:
-                    samples.append({"witness": w, "harness": hn})
-            else:
-                mismatches += 1
-                harness_errors.append(f"{hn}: witness {w} does not hold natively: {nat}")
+        for hn, ws, res in ex.map(wit, todo):
+            if "batch" not in res:
+                harness_errors.append(f"{hn}: native witness run failed: {res.get('error', '')[:500]}")
+                continue
+            for w, nat in zip(ws, res["batch"]):
+                tot["traces"] += 1
+                if nat.get("result") is True and nat.get("pre") is True:
+                    functions.update(nat.get("functions", []))
+                    if len([s for s in samples if isinstance(s, dict) and s.get("harness") == hn]) < 3:
+                        samples.append({"witness": w, "harness": hn})
+                else:
+                    mismatches += 1
+                    harness_errors.append(f"{hn}: witness {w} does not hold natively: {nat}")
     missing = sorted({t for h in hs for t in h.targets} - functions) if witnesses else []
 
     for k in known:
